@@ -1,17 +1,18 @@
 #!/bin/bash
-# usage: refsetup.sh <tag> "<area description>"  → worktree /tmp/seed/ref-<tag> and prompt file
+# usage: [REF_TMPL=refactor_prompt2.tmpl] refsetup.sh <tag> "<area description>"  → worktree /tmp/seed/ref-<tag> and prompt file
 set -e
 TAG=$1; AREA=$2
+TMPL=/verif/tools/${REF_TMPL:-refactor_prompt.tmpl}
 D=/tmp/seed/ref-$TAG
 mkdir -p /tmp/seed
 git -C /repo worktree remove --force $D 2>/dev/null || true
 rm -rf $D
 git -C /repo worktree add -q --detach $D HEAD
 mkdir -p $D/out
-python3 - "$D" "$AREA" <<'PY'
+python3 - "$D" "$AREA" "$TMPL" <<'PY'
 import sys
-d,area=sys.argv[1:3]
-t=open('/verif/tools/refactor_prompt.tmpl').read().replace('__DIR__',d).replace('__AREA__',area)
+d,area,tmpl=sys.argv[1:4]
+t=open(tmpl).read().replace('__DIR__',d).replace('__AREA__',area)
 open(d+'.prompt.txt','w').write(t)
 print(d+'.prompt.txt')
 PY
